@@ -19,8 +19,8 @@ CHECKS = {
          "Disk states are materialised with plain os calls; no symlinks/permissions; removal of the real root and directory-into-itself copies are excluded (unbounded on disk); the concurrent programs only contain operations whose preconditions hold in every order (the disk backend is not linearizable against removals of addressed nodes, and the statement quantifies over histories).",
          "DESIGN.md 3/C02"),
  "C03": ("exploration",
-         "bounded exhaustive enumeration of path strings x 16 operations x 24 view kinds x preludes on the real code with canaries outside every view root (no sampling)",
-         "Every path string of <=3 (quick) / <=4 (thorough) segments over {name,'.','..',''} with/without leading '/' is passed to every operation (both arguments of the copies, and as Filespace() argument followed by write/list/remove) of every view kind: memory child, child-of-child, disk root/child/grandchild, encrypted over either, read-only mask and its children, sub-path helper and nesting, cache children and caches over child views (committed before the comparison). Oracle: the snapshot of everything outside the view root (store tree, host directory, cache-visible tree) is byte-identical, and no returned content/listing/stat/existence answer belongs to a node outside the root.",
+         "bounded exhaustive enumeration of path strings x 16 operations x 31 view kinds x preludes on the real code with canaries outside every view root (no sampling)",
+         "Every path string of <=3 (quick) / <=4 (thorough) segments over {name,'.','..',''} with/without leading '/' is passed to every operation (both arguments of the copies, and as Filespace() argument followed by write/list/remove) of every view kind: memory child, child-of-child, disk root/child/grandchild, encrypted over either, read-only mask and its children, sub-path helper and nesting, cache children and caches over child views (committed before the comparison), views rooted in an empty directory inside an otherwise empty directory, and view roots named like a sibling plus a leading dot. Oracle: the snapshot of everything outside the view root (store tree, host directory, cache-visible tree) is byte-identical, and no returned content/listing/stat/existence answer belongs to a node outside the root.",
          "Segment bound as stated (the 'randomly beyond' part is not claimed); every case also after an 'outside sweep' (all reads of all store nodes through the parent object and a sibling view) and, for climbing paths, after write/list/mkdir+remove preludes through the same view object; three view kinds over a store written through the encryption; one store shape with same-named nodes inside and outside; the view's own root node counts as inside.",
          "DESIGN.md 3/C03"),
  "C04": ("fault_enumeration",
@@ -30,11 +30,11 @@ CHECKS = {
          "DESIGN.md 3/C04"),
  "C05": ("fault_enumeration",
          "bounded exhaustive enumeration of cipher/base/secret/salt/host-binding configurations x plaintexts x write/read paths; every truncation length and every single-byte corruption of the stored bytes; name-space lock-step with the tree model; preemption-bounded exhaustive schedule exploration of 2-3 filespaces with different secrets used concurrently",
-         "Round trip through all write-path/read-path pairs (incl. overwrite of shorter/longer content), substring secrecy of the raw bytes, nonce freshness, rejection under every other (secret,salt) of the pool, and for the stored bytes of each plaintext EVERY truncation length 0..N-1 and EVERY single-byte corruption (all 255 values for short files) must be answered with an error - never data, never a panic - on a fresh base each time; name-space operations are compared step by step with the tree model through the encrypted filespace.",
+         "Round trip through all write-path/read-path pairs (incl. overwrite of shorter/longer content), substring secrecy of the raw bytes, nonce freshness, rejection under every other (secret,salt) of the pool, and for the stored bytes of each plaintext EVERY truncation length 0..N-1 and EVERY single-byte corruption (all 255 values for short files) must be answered with an error - never data, never a panic - on a fresh base each time; name-space operations are compared step by step with the tree model through the encrypted filespace; every round-trip case also crosses a child view in both directions (parent writes / child reads; child writes / parent and an independent same-settings filespace read).",
          "crypto/rand.Reader replaced by a deterministic non-repeating stream; concurrent part: 14 programs, <=2/3 preemptions, race oracle on the encryptfs packages; caller buffers are re-used and wiped; cryptographic strength out of scope; plaintext lengths include 70000 (thorough 140001) with every truncation length on the whole-file paths; corruptions (and truncations on the other paths) of long files use strided interior positions (stated in evidence).",
          "DESIGN.md 3/C05"),
  "C06": ("model_checking",
-         "exhaustive enumeration of bounded cache-operation histories (depth 3/4, 44-op alphabet incl. intermediate Commits, copies onto written paths, file/directory type changes, a writer closed without a write) over 4 initial remotes on the real fscache, compared with a fold over the tree reference model; exhaustive journal map-order choices and exhaustive failing-remote-call positions during Commit",
+         "exhaustive enumeration of bounded cache-operation histories (depth 3/4, 45-op alphabet incl. intermediate Commits, copies onto written paths, file/directory type changes, a writer closed without a write) over 4 initial remotes on the real fscache, compared with a fold over the tree reference model; exhaustive journal map-order choices and exhaustive failing-remote-call positions during Commit",
          "Every history is replayed on a fresh cache over a fresh remote; the remote must be untouched before Commit, equal to the model fold after Commit and after a second Commit; for short histories every iteration order of the four journal maps (explorer choice) and every single failing remote call during Commit (then a fault-free Commit) are explored. Six signatures of the cache's design gap (no tombstones, no merged view of buffer and remote) are recorded as known findings with root-cause matchers; three defects were repaired.",
          "Expected remote = tree-model fold of the operations the cache reported successful; histories containing an operation whose outcome is unspecified at that point are skipped (counted), except a file copied onto an existing file: if the cache reports success the destination is a copy from then on.",
          "DESIGN.md 3/C06"),
@@ -45,32 +45,32 @@ CHECKS = {
          "DESIGN.md 3/C07"),
  "C09": ("model_checking",
          "program enumeration x preemption-bounded exhaustive schedule exploration of the real memfs; each complete interleaving's call/return history and final tree checked for linearizability against the tree reference model (porcupine), plus race oracle",
-         "All unordered pairs of 12 single operations (incl. writer/reader streams held open across a scheduling point) from two initial trees, 8 three-thread, 4 two-operation and 8 held-handle programs (a reader or writer held across another write, against writes, reads and copies of the held file) are executed under every schedule within the preemption bound (pairs 3/8, triples 2/4). The history must have a sequential explanation that respects real time and yields the final tree; listings unique; no panic, no deadlock; no unordered conflicting access to memfs multi-word fields. Parent-directory creation may become visible earlier than the node itself, and a copy racing with a recursive remove of both ends is judged by the statement's clauses only (complete values, unique names).",
+         "All unordered pairs of 12 single operations (incl. writer/reader streams held open across a scheduling point) from two initial trees, 8 three-thread, 4 two-operation 8 held-handle programs (a reader or writer held across another write, against writes, reads and copies of the held file) and 2 programs with a refused write followed by / racing with successful writes in the same directory are executed under every schedule within the preemption bound (pairs 3/8, triples 2/4). The history must have a sequential explanation that respects real time and yields the final tree; listings unique; no panic, no deadlock; no unordered conflicting access to memfs multi-word fields. Parent-directory creation may become visible earlier than the node itself, and a copy racing with a recursive remove of both ends is judged by the statement's clauses only (complete values, unique names).",
          "Linearizability is used as the reading of 'takes effect and is visible afterwards'; 2-3 threads; bounds as reported.",
          "DESIGN.md 3/C09"),
  "C10": ("exploration",
          "exhaustive enumeration of bounded programs (ordered definition calls x request sequences) executed on the real provider and on a reference interpreter, compared request by request",
-         "Every ordered sequence of <=2-4 definition calls over 3 names (explicit and default slot per name; factory shapes const/fail/nil/requires X/tolerates X/injects X/injects ?X for every target incl. self, so every cyclic graph on <=3 names occurs) is followed by every sequence of <=1-3 requests (Get, InjectTo with required and optional tags, Keys, late definitions). Outcome class, instance identity, invocation counters and recursion depth must equal the reference (memoised resolver, explicit beats default, frozen after first resolution, cycle = error). Programs of explicit definitions also run on two static providers sharing one caller-owned factories map (each against a frozen reference; the caller's map unchanged).",
+         "Every ordered sequence of <=2-4 definition calls over 3 names (explicit and default slot per name; factory shapes const/fail/nil/requires X/tolerates X/injects X/injects ?X for every target incl. self, so every cyclic graph on <=3 names occurs) is followed by every sequence of <=1-3 requests (Get, InjectTo with required and optional tags, Keys, late definitions). Outcome class, instance identity, invocation counters and recursion depth must equal the reference (memoised resolver, explicit beats default, frozen after first resolution, cycle = error). Programs of explicit definitions also run on two static providers sharing one caller-owned factories map (each against a frozen reference; the caller's map unchanged); for every name the library itself registers (goatapp's App, the bundled modules' services) an explicit Set/AddFactory before or after must be accepted and win.",
          "Duplicate definitions of one slot are unspecified by the statement and not generated; error texts are not compared.",
          "DESIGN.md 3/C10"),
  "C11": ("model_checking",
          "program enumeration (scope trees x task bodies x failing listeners x late-failing tasks) x preemption-bounded exhaustive schedule exploration with a happens-before state cache, on the real scope/eventscope/contextscope code",
-         "105 programs over 5 scope trees (task bodies incl. Stop-then-Kill / Stop-then-AppendError) (root; shared child; isolated child; child+grandchild; shared+isolated) with one closer thread per scope and one thread per task; recorders on all 11 events on the root (twice) and on every child. Every schedule within the bound (2-scope trees: 1 quick / 2 thorough preemptions; 3-scope trees: 0 / 1) is executed; the oracle checks on the global-step event log: event order and exactly-once, commit xor rollback where the error source is ordered, waiting for tasks and children, Close result, loud second Close without events, listener order, shared vs isolated failure, parent stop reaching the isolated child, no panic, no deadlock.",
+         "108 programs over 5 scope trees (task bodies incl. Stop-then-Kill / Stop-then-AppendError / create-and-close a child scope while another task ends the scope) (root; shared child; isolated child; child+grandchild; shared+isolated) with one closer thread per scope and one thread per task; recorders on all 11 events on the root (twice) and on every child. Every schedule within the bound (2-scope trees: 1 quick / 2 thorough preemptions; 3-scope trees: 0 / 1) is executed; the oracle checks on the global-step event log: event order and exactly-once, commit xor rollback where the error source is ordered, waiting for tasks and children, Close result, loud second Close without events, listener order, shared vs isolated failure, parent stop reaching the isolated child, no panic, no deadlock.",
          "Commit/rollback and the Close result are only judged where the error source cannot race with the decision; bounds as reported; HB-cache soundness relies on harness observations being recorded as dependent trace events.",
          "DESIGN.md 3/C11"),
  "C12": ("model_checking",
          "program enumeration x stateless preemption-bounded DFS over all schedules of the real contextscope/scope code under the controlled scheduler, with a vector-clock happens-before race oracle on multi-word fields",
-         "All pairs of single operations {AppendError, Kill, Stop, IsDone, Errors}, curated two-operation threads and three-thread programs on plain, isolated, full and child scopes, plus child creation/closing after and racing with the parent's end; every schedule with <=3 (quick) / <=4 (thorough) preemptions for two threads and <=2/3 for three; readers that act on the done signal, errors recorded through the parent wrapper of a shared context with Err() calls in between; oracle: no panic, error count and identity, done signal, done-implies-error-visible (programs without Stop), the texts of Err()/Wait()/Close()/parent.Err() naming every appended error, no deadlock, no unordered conflicting access to the error slices. Child-closing programs: a registered child whose close-time listener fails is closed while another goroutine waits on / closes the parent, whose answers must name the listener's error. Orphan-child programs: a child of an ended scope signals while / after the parent is closed.",
+         "All pairs of single operations {AppendError, Kill, Stop, IsDone, Errors}, curated two-operation threads and three-thread programs on plain, isolated, full and child scopes, plus child creation/closing after and racing with the parent's end; every schedule with <=3 (quick) / <=4 (thorough) preemptions for two threads and <=2/3 for three; readers that act on the done signal, errors recorded through the parent wrapper of a shared context with Err() calls in between; oracle: no panic, error count and identity, done signal, done-implies-error-visible (programs without Stop), the texts of Err()/Wait()/Close()/parent.Err() naming every appended error, no deadlock, no unordered conflicting access to the error slices. Child-closing programs: a registered child whose close-time listener fails is closed while another goroutine waits on / closes the parent, whose answers must name the listener's error. Orphan-child programs: a child of an ended scope signals while / after the parent is closed; the context an isolated scope was derived from ends while goroutines signal on the isolated scope; children created while the parent ends next to a registered sibling.",
          "Bounds as reported in evidence; word-sized fields are outside the race oracle; the shim's model of Mutex/RWMutex/WaitGroup/channels/select is trusted.",
          "DESIGN.md 3/C12"),
  "C13": ("model_checking",
          "bounded-history enumeration against a list-of-maps overlay model; preemption-bounded exhaustive schedule exploration of concurrent locked sections judged by a linearizability checker (porcupine) with each locked section as one atomic step; race oracle",
-         "All histories of <=3/4 operations on scope chains of depth 1-3 (keys k1,k2; values 1,2,nil) are compared with the overlay model through plain, locked and nested-locked reads (a section opened on a section's locker); 33 concurrent programs (locked increments, plain writes/reads, Keys, nested locked reads, the get-or-create services of the task manager, environment and wait-group units) are explored under every schedule with <=3/2 (quick) or <=5/3 (thorough) preemptions; the recorded call/return history must be linearizable and end in the final value, services must return one instance.",
+         "All histories of <=3/4 operations on scope chains of depth 1-3 (keys k1,k2; values 1,2,nil) are compared with the overlay model through plain, locked and nested-locked reads (a section opened on a section's locker); 41 concurrent programs (locked increments, sections on the middle scope of a root-middle-leaf chain with reads through the leaf, plain writes/reads, Keys, nested locked reads, the get-or-create services of the task manager, environment and wait-group units) are explored under every schedule with <=3/2 (quick) or <=5/3 (thorough) preemptions; the recorded call/return history must be linearizable and end in the final value, services must return one instance.",
          "2-3 threads; bounds as reported; the content of Keys() is not judged.",
          "DESIGN.md 3/C13"),
  "C14": ("model_checking",
          "task-graph enumeration x preemption-bounded exhaustive schedule exploration with a happens-before state cache of the real runner/task manager/terminal loop inside a mock application bootstrapped per execution",
-         "Task graphs on 2-3 tasks (all wait shapes), failing-command variants, body durations, a submission waiting for an unknown task / for itself / for a later task, wait lists that are prefixes of one caller-owned array, nested pip:run from inside a body, write/read resource locks (also combined with wait lists) and tasks in a sandbox that reports its outcome only by return value are submitted through the real Runner into the real self sandbox; probe commands log begin/end with global steps. Every schedule within the bound is executed (dependent pairs: 1 preemption quick / 2 thorough; other two-task graphs and chains 0/1; three-task graphs with concurrent tasks: thorough only, free switches) and the oracle checks wait order, never-after-failed-prerequisite, sequential bodies stopping at a failing command, refused submissions, TasksManager.Wait's result, lock exclusion, no panic, no deadlock; after all tasks have finished every named resource must be free again (release check through the application's SharedMutex).",
+         "Task graphs on 2-3 tasks (all wait shapes), failing-command variants, body durations, a submission waiting for an unknown task / for itself / for a later task, wait lists that are prefixes of one caller-owned array, a prerequisite that stops its own scope gracefully while its command keeps running, an async sandbox whose Run returns before its work has finished, nested pip:run from inside a body, write/read resource locks (also combined with wait lists) and tasks in a sandbox that reports its outcome only by return value are submitted through the real Runner into the real self sandbox; probe commands log begin/end with global steps. Every schedule within the bound is executed (dependent pairs: 1 preemption quick / 2 thorough; other two-task graphs and chains 0/1; three-task graphs with concurrent tasks: thorough only, free switches) and the oracle checks wait order, never-after-failed-prerequisite, sequential bodies stopping at a failing command, refused submissions, TasksManager.Wait's result, lock exclusion, no panic, no deadlock; after all tasks have finished every named resource must be free again (release check through the application's SharedMutex).",
          "Ready select cases are all explored at no cost; accesses to objects outside the focus packages do not order executions in the happens-before cache (declared reduction); siblings sharing a failed context may be cut short.",
          "DESIGN.md 3/C14"),
  "C15": ("model_checking",
@@ -80,7 +80,7 @@ CHECKS = {
          "DESIGN.md 3/C15"),
  "C16": ("model_checking",
          "program enumeration (bodies x handler subsets x failing handlers) x bounded exhaustive schedule exploration with a happens-before state cache through the real terminal seam of a mock application",
-         "For every body kind (succeeds, fails at command 1/2, appends an error, spawns a nested task that succeeds/fails in the self sandbox or in a sandbox reporting only by return value), every subset of success/fail/finally handlers and one failing handler, the script `pip:try ...; next command` runs through the real terminal loop; the oracle checks which handlers ran, that every handler began after the end of the body and of every task it spawned, the error state of the surrounding scope (contained unless a handler failed), that the script continues, no panic, no deadlock - under every schedule within the bound (quick: free switches at blocking points and all ready select cases; thorough: 1 preemption).",
+         "For every body kind (succeeds, fails at command 1/2, appends an error, spawns a nested task that succeeds/fails in the self sandbox or in a sandbox reporting only by return value, kills its scope without returning an error), every subset of success/fail/finally handlers and one failing handler, the script `pip:try ...; next command` runs through the real terminal loop; the oracle checks which handlers ran, that every handler began after the end of the body and of every task it spawned, the error state of the surrounding scope (contained unless a handler failed), that the script continues, no panic, no deadlock - under every schedule within the bound (quick: free switches at blocking points and all ready select cases; thorough: 1 preemption).",
          "With a failing handler only 'the wrong handler never runs' and containment are judged per execution (handlers are concurrent tasks sharing a context), plus reachability goals over the completely explored schedule set: some schedule runs the finally handler (resp. the matching handler).",
          "DESIGN.md 3/C16"),
  "C17": ("exploration",
@@ -95,17 +95,17 @@ CHECKS = {
          "DESIGN.md 3/C18"),
  "C19": ("model_checking",
          "exhaustive enumeration of request sequences x configurations against a reference renderer (html/template, text/template); preemption-bounded schedule exploration (happens-before cache) of concurrent first requests with a vector-clock race oracle on the providers' cache maps",
-         "All 819 sequences of <=3 requests (Base, Layout, View incl. default-layout and missing-view spellings) for both providers, helpers present/absent, cached and uncached: every returned template is rendered and compared (output and defined-name set) with a reference built directly on the standard library, cached and uncached outputs must agree position by position; nested layout/view names whose joined spellings coincide (a + b/c, a/b + c) in all sequences of <=2 requests. 36 concurrent programs (2-3 threads, first requests for the same/different views, view+layout, base+view) under every schedule within the bound: all callers render like the reference, no error, no unordered conflicting access to the cache maps (how 'no call crashes the process' is decided deterministically). 8 single-threaded programs over files with overlapping definitions inside one layer ask the same request twice of an uncached and of a cached provider with the iteration order of every ranged Go map as an explored choice: all answers equal.",
+         "All 819 sequences of <=3 requests (Base, Layout, View incl. default-layout and missing-view spellings) for both providers, helpers present/absent, cached and uncached: every returned template is rendered and compared (output and defined-name set) with a reference built directly on the standard library, cached and uncached outputs must agree position by position; nested layout/view names whose joined spellings coincide (a + b/c, a/b + c) and a view with an unparsable file in all sequences of <=2 requests; a retry that never returns after an injected fault is a finding. 36 concurrent programs (2-3 threads, first requests for the same/different views, view+layout, base+view) under every schedule within the bound: all callers render like the reference, no error, no unordered conflicting access to the cache maps (how 'no call crashes the process' is decided deterministically). 8 single-threaded programs over files with overlapping definitions inside one layer ask the same request twice of an uncached and of a cached provider with the iteration order of every ranged Go map as an explored choice: all answers equal.",
          "One file set with overlapping definitions across layers, one with overlapping definitions inside the view, layout and helper layers; word-sized cache fields are outside the race oracle; bounds as reported.",
          "DESIGN.md 3/C19"),
  "C20": ("exploration",
          "exhaustive bounded enumeration of nested maps, JSON documents (every leaf string up to 2/3 symbols in every spelling) and flat maps against encoding/json; bounded-preemption schedule exploration of the concurrent loader",
-         "Flatten/rebuild inverse laws on all nested maps (3 keys, and the empty string + 1 key, depth<=3, <=3/4 leaves; deep spines to depth 12/20); JSON reading compared with encoding/json on 4 document shapes x every leaf string over 9 JSON-significant symbols incl. escaped spellings and surrogate pairs, every number literal of <=5/6 characters over {0,1,-,+,.,e,E}, and skipped leaf kinds; JSON writing (compact and formatted) must be valid for encoding/json, denote the same map and round-trip, for every value string over 14 symbols (incl. U+1F600, U+10000, U+FFFF) and every prefix-free key set of <=3/4 keys over segments that are prefixes of one another; the translation loader is explored under every schedule with <=1-3 preemptions on 8 directory layouts.",
+         "Flatten/rebuild inverse laws on all nested maps (3 keys, and the empty string + 1 key, depth<=3, <=3/4 leaves; deep spines to depth 12/20); JSON reading compared with encoding/json on 4 document shapes x every leaf string over 9 JSON-significant symbols incl. escaped spellings and surrogate pairs, every number literal of <=5/6 characters over {0,1,-,+,.,e,E}, and skipped leaf kinds; JSON writing (compact and formatted) must be valid for encoding/json, denote the same map and round-trip, for every value string over 20 symbols (incl. U+1F600, U+10000, U+FFFF and JSON's structural characters) and every prefix-free key set of <=3/4 keys over segments that are prefixes of one another; the translation loader is explored under every schedule with <=1-3 preemptions on 8 directory layouts.",
          "encoding/json is the reference; symbol-length bounds as stated; loader values are %-free; the flat key '' alone is refused by the rebuild functions by design (explicit error, accepted).",
          "DESIGN.md 3/C20"),
  "C08": ("model_checking",
          "stateless preemption-bounded DFS over all schedules of the real fsloop/jobsync code under a controlled scheduler (vsched), fair-yield rule, per-program bounds",
-         "Every schedule (up to the stated preemption bound, 2-3 for small programs) of the real producer/consumer/completion goroutines is executed for a family of trees, filters, worker limits, channel capacities and injected failures; oracle = multiset of callback arguments, concurrency high-water mark, callbacks after Wait, error list. Found the lost-item window on the pinned tree (fixed).",
+         "Every schedule (up to the stated preemption bound, 2-3 for small programs) of the real producer/consumer/completion goroutines is executed for a family of trees, filters, worker limits, channel capacities and injected failures; oracle = multiset of callback arguments, concurrency high-water mark, callbacks after Wait, error list; loops bound to an event scope that is killed during the walk must report the interruption. Found the lost-item window on the pinned tree (fixed).",
          "Trusts the vsched model of Mutex/RWMutex/WaitGroup/buffered channels/select/Gosched; bounded to <=2 producers/consumers and <=3 preemptions; memfs treated as non-preemptive.",
          "DESIGN.md 3/C08"),
 }
